@@ -14,9 +14,14 @@
         18 roundtrip                -> []   crate: sketch := deserialize(serialize(sketch)); model: unchanged, except
                                             that the copy always owns a (possibly empty) table  (C11)
         19 ser       [seed_hash]    -> the bytes of serialize()   (not produced by the model: masked; C12 oracle)
+        24 sk_roundtrip [slot]      -> [1] the slot's sketch, serialized, is accepted by deserialize and the copy has the same
+                                       coupon count (and matrix for lg_k <= 16); [0] its own image is rejected
         32 max_bytes [lg_k]         -> [CpcSketch::max_serialized_bytes(lg_k)]
-        40 deser     [bytes...]     -> crate only (masked): [0] = Err | 1 :: float-free dump of the Ok value, which is then
-                                       used (estimate, validate, updates, serialize, union); C14 oracle
+        40 deser     [bytes...]     -> crate only (masked): [0; wrapper_err] = Err (wrapper_err: CpcWrapper::new is Err too)
+                                       | [1; wrapper_agrees; updates_ok; union_ok] ++ float-free dump of the Ok value
+                                       (wrapper_agrees: CpcWrapper::new Ok with the sketch's lg_k, is_empty, estimate, 2-sigma
+                                       bounds; updates_ok: the 40 pairs [use_pairs], estimate, validate, serialize + deserialize
+                                       ran without panic; union_ok: union of the value and its updated copy, to_sketch); C14 oracles
         41 mut_deser [kind; pos; val] -> as 40 on a mutation of the current sketch's own image (kind 0 flip bit pos,
                                        1 set byte pos := val, 2 truncate to pos, 3 set the u32 at int index pos := val,
                                        4 append val bytes, 5 set two bytes)
@@ -125,6 +130,13 @@ Definition step (cfg : list Z) (st : cstate) (o : zop) : cstate * list Z :=
           | None => (st, PANIC) end
   | 16 => match lookup a0 (cs_sk st) with Some _ => (st, []) | None => (st, PANIC) end
   | 17 => match lookup a0 (cs_sk st) with Some _ => (st, []) | None => (st, PANIC) end
+  | 24 => match lookup a0 (cs_sk st) with
+          | Some s => if (8 * c_num s <? 475 * 2 ^ c_lgk s)%N then (st, [1])
+                      else match c_table s with
+                           | Some (_ :: _) => (st, PANIC)      (* offset > 56 with surprising values: serialize asserts *)
+                           | _ => (st, [0])                    (* written, and rejected by the reader's own domain bound *)
+                           end
+          | None => (st, PANIC) end
   | 20 => match union_new (zN a1) with Ok u => (set_un st a0 u, []) | _ => (st, PANIC) end
   | 21 => match lookup a0 (cs_un st), lookup a1 (cs_sk st) with
           | Some u, Some s =>
@@ -428,6 +440,7 @@ Fixpoint union_from (sks : list (Z * sspec)) (uns : list (Z * uspec)) (ops : lis
       | 17 => match lookup a0 sks with
               | Some ss => image_ok_gen (ss_lgk ss) (ss_o ss) (ss_merged ss) None (zN a1) ob && union_from sks uns r obr
               | None => false end
+      | 24 => list_eqb Z.eqb ob [1] && union_from sks uns r obr     (* a sketch, also a union result, can be written and read back *)
       | 20 => ok && union_from sks (store a0 (mkUS (zN a1) (PositiveMap.empty N)) uns) r obr
       | 21 => match lookup a0 uns, lookup a1 sks with
               | Some u, Some ss =>
@@ -518,28 +531,55 @@ Definition state_of_dump (ob : list Z) : cpc :=
   let tab := map zN (skipn (8 + nwin) ob) in
   mkCpc (zN (zat ob 0)) (zN (zat ob 3)) (zN (zat ob 1)) (Some tab) (zN (zat ob 2)) win (zat ob 5 =? 1) zero zero.
 
-Definition deser_obs_ok (ob : list Z) : bool :=
+(* the use phase of the harness (deser_and_use): 40 fixed pairs, then a union of the value and its updated copy *)
+Definition use_pairs (lgk : N) : list N :=
+  filter (fun rc => negb (rc =? 4294967295)%N)
+    (map (fun i => let row := ((i * 37 + 11) mod 2 ^ lgk)%N in
+                   let col := if (i mod 4 =? 3)%N then (63 - i mod 5)%N else ((i * 5) mod 9)%N in
+                   (row * 64 + col)%N) (map N.of_nat (seq 0 40))).
+Definition use_updates (s : cpc) : outcome cpc := Model.Cpc.run_from s (use_pairs (c_lgk s)).
+Definition use_union (s s2 : cpc) : outcome cpc :=
+  obind (union_new (c_lgk s)) (fun u => obind (union_update u s) (fun u1 => obind (union_update u1 s2) union_to_sketch)).
+Definition is_ok {A} (x : outcome A) : bool := match x with Ok _ => true | _ => false end.
+
+(* [tie = false] (malformed_ok, the property): an accepted value passes the invariant check, the wrapper agrees with
+   it, and it is USABLE: the further updates and the union run without panic.
+   [tie = true] (malformed_tie_ok, the exact boundary): the use phase fails exactly when the model is Stuck on the same
+   operations, i.e. when the accepted value is so close to the edge of the sketch's domain (window offset 56,
+   surprising-value table capacity) that the 40 pairs or the union leave it. *)
+Definition deser_obs_gen (tie : bool) (ob : list Z) : bool :=
   negb (list_eqb Z.eqb ob PANIC) &&
   match ob with
-  | [0] => true
-  | 1 :: d =>
+  | [0; w] => (w =? 0) || (w =? 1)
+  | 1 :: w :: up :: un :: d =>
       forallb (fun x => 0 <=? x) d &&
       (Z.of_nat (length d) =? 8 + nth 6 d 0 + nth (7 + Z.to_nat (nth 6 d 0)) d 0) &&
       inv_check (state_of_dump d) &&
-      (zN (zat d 4) =? cpc_flavor (state_of_dump d))%N
+      (zN (zat d 4) =? cpc_flavor (state_of_dump d))%N &&
+      (w =? 1) &&
+      (if tie then
+         let s := state_of_dump d in
+         match use_updates s with
+         | Ok s2 => (up =? 1) && (un =? zbool (is_ok (use_union s s2)))
+         | _ => (up =? 0) && (un =? zbool (is_ok (use_union s s)))
+         end
+       else (up =? 1) && (un =? 1))
   | _ => false
   end.
+Definition deser_obs_ok := deser_obs_gen false.
 
-Fixpoint malformed_from (ops : list zop) (obs : list (list Z)) : bool :=
+Fixpoint malformed_gen (tie : bool) (ops : list zop) (obs : list (list Z)) : bool :=
   match ops, obs with
   | (code, a) :: r, ob :: obr =>
-      (if (code =? 40) || (code =? 41) then deser_obs_ok ob else negb (list_eqb Z.eqb ob PANIC))
-      && malformed_from r obr
+      (if (code =? 40) || (code =? 41) then deser_obs_gen tie ob else negb (list_eqb Z.eqb ob PANIC))
+      && malformed_gen tie r obr
   | [], [] => true
   | _, _ => false
   end.
+Definition malformed_from := malformed_gen false.
 
 Definition malformed_ok (c : case) : bool := malformed_from (c_ops c) (c_obs c).
+Definition malformed_tie_ok (c : case) : bool := malformed_gen true (c_ops c) (c_obs c).
 
 Definition oracles : list (Z * (case -> bool)) :=
-  [(0, prop_ok); (1, union_ok); (2, extremes_ok); (3, layout_ok); (4, malformed_ok)].
+  [(0, prop_ok); (1, union_ok); (2, extremes_ok); (3, layout_ok); (4, malformed_ok); (5, malformed_tie_ok)].
